@@ -412,6 +412,19 @@ class Normalizer(ast.NodeTransformer):
         if isinstance(node.op, ast.Not) and isinstance(node.operand, ast.Constant) and isinstance(node.operand.value, bool):
             self.count += 1
             return ast.copy_location(ast.Constant(value=not node.operand.value), node)
+        # `not (a == b)` -> `a != b` (and is / in): the same test, in the form the idiom recognisers know
+        # (== / != on the repository's values are dataclass or builtin comparisons, where != is the negation of ==)
+        if isinstance(node.op, ast.Not) and isinstance(node.operand, ast.Compare) and len(node.operand.ops) == 1:
+            inv = {ast.Eq: ast.NotEq, ast.NotEq: ast.Eq, ast.Is: ast.IsNot, ast.IsNot: ast.Is, ast.In: ast.NotIn,
+                   ast.NotIn: ast.In}.get(type(node.operand.ops[0]))
+            if inv is not None:
+                self.count += 1
+                c = node.operand
+                return ast.copy_location(ast.Compare(left=c.left, ops=[inv()], comparators=c.comparators), node)
+        if isinstance(node.op, ast.Not) and isinstance(node.operand, ast.UnaryOp) and isinstance(node.operand.op, ast.Not) \
+                and isinstance(node.operand.operand, ast.Compare):
+            self.count += 1
+            return node.operand.operand
         return node
 
     def visit_BoolOp(self, node):
@@ -1163,6 +1176,98 @@ def _append_loops(tree) -> int:
 
 
 
+# ---------------------------------------------------------------------------------------------- N22
+def _local_list_values(tree) -> int:
+    """A list created empty in the function, only ever appended to / extended OUTSIDE loops (or by the plain loop
+    `for v in C: [if c:] T.append(E)`) and finally returned is a value, not an object anyone else sees:
+        T.append(x) -> T = T + [x]      T.extend(X) -> T = T + list(X)      the loop -> T = T + [E for v in C if c]
+    so that the accumulator spelling and the expression spelling (`return inherited + own`) meet."""
+    count = 0
+    for fn in ast.walk(tree):
+        if not isinstance(fn, (ast.FunctionDef, ast.AsyncFunctionDef)):
+            continue
+        if any(isinstance(x, (ast.FunctionDef, ast.AsyncFunctionDef, ast.Lambda, ast.Yield, ast.YieldFrom))
+               for st in fn.body for x in ast.walk(st)):
+            continue
+        cands = {}
+        for st in fn.body:
+            tg, val = None, None
+            if isinstance(st, ast.Assign) and len(st.targets) == 1 and isinstance(st.targets[0], ast.Name):
+                tg, val = st.targets[0].id, st.value
+            elif isinstance(st, ast.AnnAssign) and isinstance(st.target, ast.Name) and st.value is not None:
+                tg, val = st.target.id, st.value
+            if tg and ((isinstance(val, ast.List) and not val.elts) or
+                       (isinstance(val, ast.Call) and isinstance(val.func, ast.Name) and val.func.id == 'list' and not val.args)):
+                cands[tg] = st
+        for T, init in list(cands.items()):
+            sites = []          # (block list, index, kind, payload)
+            ok = True
+            allowed_ids = {id(init)}
+
+            def simple_loop(lp):
+                if not (isinstance(lp, ast.For) and not lp.orelse and len(lp.body) == 1):
+                    return None
+                inner, cond = lp.body[0], None
+                if isinstance(inner, ast.If) and not inner.orelse and len(inner.body) == 1:
+                    cond, inner = inner.test, inner.body[0]
+                if isinstance(inner, ast.Expr) and isinstance(inner.value, ast.Call) and isinstance(inner.value.func, ast.Attribute) \
+                        and inner.value.func.attr == 'append' and len(inner.value.args) == 1 and not inner.value.keywords \
+                        and isinstance(inner.value.func.value, ast.Name) and inner.value.func.value.id == T:
+                    elt = inner.value.args[0]
+                    others = [lp.iter, elt, lp.target] + ([cond] if cond is not None else [])
+                    if any(isinstance(x, ast.Name) and x.id == T for o in others for x in ast.walk(o)):
+                        return None
+                    if any(isinstance(x, (ast.Await, ast.NamedExpr)) for o in others for x in ast.walk(o)):
+                        return None
+                    return (elt, cond)
+                return None
+
+            def scan(blk):
+                nonlocal ok
+                for i, st in enumerate(blk):
+                    if st is init:
+                        continue
+                    mentions = any(isinstance(x, ast.Name) and x.id == T for x in ast.walk(st))
+                    if not mentions:
+                        continue
+                    if isinstance(st, ast.Expr) and isinstance(st.value, ast.Call) and isinstance(st.value.func, ast.Attribute) \
+                            and isinstance(st.value.func.value, ast.Name) and st.value.func.value.id == T \
+                            and st.value.func.attr in ('append', 'extend') and len(st.value.args) == 1 and not st.value.keywords \
+                            and not any(isinstance(x, ast.Name) and x.id == T for x in ast.walk(st.value.args[0])):
+                        sites.append((blk, i, st.value.func.attr, st.value.args[0]))
+                    elif isinstance(st, ast.Return) and isinstance(st.value, ast.Name) and st.value.id == T:
+                        pass
+                    elif isinstance(st, ast.If) and not any(isinstance(x, ast.Name) and x.id == T for x in ast.walk(st.test)):
+                        scan(st.body)
+                        scan(st.orelse)
+                    elif simple_loop(st) is not None:
+                        sites.append((blk, i, 'loop', st))
+                    else:
+                        ok = False
+            scan(fn.body)
+            if not ok or not sites:
+                continue
+
+            def cat(rhs, at):
+                new = ast.Assign(targets=[ast.Name(id=T, ctx=ast.Store())],
+                                 value=ast.BinOp(left=ast.Name(id=T, ctx=ast.Load()), op=ast.Add(), right=rhs),
+                                 type_comment=None)
+                return ast.fix_missing_locations(ast.copy_location(new, at))
+            for (blk, i, kind, payload) in sites:
+                at = blk[i]
+                if kind == 'append':
+                    blk[i] = cat(ast.List(elts=[payload], ctx=ast.Load()), at)
+                elif kind == 'extend':
+                    blk[i] = cat(ast.Call(func=ast.Name(id='list', ctx=ast.Load()), args=[payload], keywords=[]), at)
+                else:
+                    elt, cond = simple_loop(payload)
+                    comp = ast.ListComp(elt=elt, generators=[ast.comprehension(
+                        target=payload.target, iter=payload.iter, ifs=[cond] if cond is not None else [], is_async=0)])
+                    blk[i] = cat(comp, at)
+                count += 1
+    return count
+
+
 # ---------------------------------------------------------------------------------------------- N18
 def _unfold_partials(tree) -> int:
     """f = functools.partial(g, a, b=c)  (f bound once in the function, a / c plain names or constants that are not
@@ -1213,6 +1318,27 @@ def _unfold_partials(tree) -> int:
 
 
 
+def _fold_literal_zip(tree) -> int:
+    """N20: `zip((a, b), (c, d))` over literal tuples / lists of simple elements is the table `((a, c), (b, d))`
+    (iterated once, in a `for` or through a single-store local that a `for` walks)."""
+    count = 0
+
+    class Z(ast.NodeTransformer):
+        def visit_Call(self, node):
+            nonlocal count
+            self.generic_visit(node)
+            if isinstance(node.func, ast.Name) and node.func.id == 'zip' and len(node.args) >= 2 and not node.keywords \
+                    and all(isinstance(a, (ast.Tuple, ast.List)) and 0 < len(a.elts) <= MAX_ELTS
+                            and all(_simple(e) for e in a.elts) for a in node.args):
+                n = min(len(a.elts) for a in node.args)
+                rows = [ast.Tuple(elts=[copy.deepcopy(a.elts[i]) for a in node.args], ctx=ast.Load()) for i in range(n)]
+                count += 1
+                return ast.fix_missing_locations(ast.copy_location(ast.Tuple(elts=rows, ctx=ast.Load()), node))
+            return node
+    Z().visit(tree)
+    return count
+
+
 def normalize(tree: ast.Module, inline: bool = True) -> ast.Module:
     ninl = 0
     if inline:
@@ -1220,6 +1346,7 @@ def normalize(tree: ast.Module, inline: bool = True) -> ast.Module:
         ninl = inline_helpers(tree)
     nfold = _fold_named_constants(tree)
     nfold += _unfold_partials(tree)
+    nfold += _fold_literal_zip(tree)
     n = Normalizer()
     tree = n.visit(tree)
     n.count += nfold
@@ -1236,6 +1363,7 @@ def normalize(tree: ast.Module, inline: bool = True) -> ast.Module:
     n.count += _raise_split_and_unpeel(tree)
     n.count += _setdefault_on_fresh_dict(tree)
     n.count += _append_loops(tree)
+    n.count += _local_list_values(tree)
     cp = _CopyProp()
     for f in [x for x in ast.walk(tree) if isinstance(x, (ast.FunctionDef, ast.AsyncFunctionDef))]:
         for _ in range(3):
